@@ -1578,6 +1578,7 @@ def state_closure(cx: Cx, ob: Ob) -> None:
             continue
         fs = cx.summary(fn, ob.id)
         rebuilt: dict = {}
+        index_calls: set = set()
 
         def canon(t_):
             """bound variables numbered in order of appearance"""
@@ -1606,9 +1607,21 @@ def state_closure(cx: Cx, ob: Ob) -> None:
                         rebuilt.setdefault(ev.a[1], set()).add(ev.a[2])
             elif ev.kind == "expr" and op(ev.a) == "call" and op(ev.a[1]) == "attr" and ev.a[1][2] == "_index" and len(ev.a[2]) == 1:
                 # B._index(record): the class's own way of (re-)entering a record into the four name tables
-                rebuilt.setdefault(ev.a[1][1], set()).update(t_ for t_ in builders if t_ != "pattern_map")
+                idx_fn = cx.model.functions.get(f"{CONV}._index")
+                kept = set()
+                if idx_fn is not None:
+                    ime = ("param", idx_fn.self_name)
+                    for e3, _c3 in cx.summary(idx_fn, ob.id, full=True).walk():
+                        if e3.kind == "store" and op(e3.a) == "item" and op(e3.a[1]) == "attr" and e3.a[1][1] == ime and e3.a[1][2] in builders:
+                            kept.add(e3.a[1][2])
+                # the class's own maintenance step is not a rebuild from outside: it is judged where it is defined
+                index_calls.add(ev.a[1][1])
+                rebuilt.setdefault(ev.a[1][1], set()).update(kept)
         complete = {B for B, ts in rebuilt.items() if ts >= set(builders)}
+        explicit = {B for B in rebuilt if any(e4.kind == "store" and op(e4.a) == "attr" and e4.a[1] == B and e4.a[2] in builders for e4, _c4 in fs.walk())}
         for B, ts in rebuilt.items():
+            if B in index_calls and B not in explicit:
+                continue  # only `_index(record)` is called (as add_record does): no table is written from outside
             if B in complete:
                 ob.site(f"{fn.where} {fn.qualname}", f"rebuilds every lookup table of `{show(B)[:30]}` from its own records, as __init__ does")
             else:
